@@ -25,7 +25,11 @@ def run(ctx):
     plots.c18_rules(ctx)
 
     def sources(fi):
+        # self.ds is derived from the caller's dataset by drop_vars / sel / dropna: new Dataset objects whose variables may still
+        # share memory with the caller's arrays, so a store into a view of it can write through
         s = set()
+        if fi.cls is not None or (fi.parent is not None and fi.parent.cls is not None):
+            s.add("self.ds")
         for p in fi.params:
             if p in ("ds",):
                 s.add(p)
